@@ -415,7 +415,10 @@ func TestC14Doc(t *testing.T) {
 		case "bad-effect":
 			v.Effect = rapid.SampledFrom([]string{"allow", "deny", "Permit", "", "ALLOW", "Allow "}).Draw(t, "bad_effect")
 		case "unknown-action":
-			v.Actions = append(v.Actions, rapid.SampledFrom([]string{"s3:Frobnicate", "GetObject", "s3:GetObjec", "s3:Get*x", "s4:GetObject", "s3:getobject", "ec2:*", "s3:Zz*", "*"}).Draw(t, "bad_action"))
+			// anywhere in the list: first, in the middle or last
+			bad := rapid.SampledFrom([]string{"s3:Frobnicate", "GetObject", "s3:GetObjec", "s3:Get*x", "s4:GetObject", "s3:getobject", "ec2:*", "s3:Zz*", "*", ""}).Draw(t, "bad_action")
+			pos := rapid.IntRange(0, len(v.Actions)).Draw(t, "bad_action_pos")
+			v.Actions = append(append(append([]string(nil), v.Actions[:pos]...), bad), v.Actions[pos:]...)
 			v.AShape = 1
 		case "unknown-principal":
 			v.Principals = append([]string{rapid.SampledFrom([]string{"nobody", "Alice", "alice ", "root2"}).Draw(t, "ghost")}, v.Principals...)
